@@ -402,6 +402,10 @@ class SNum(Sym):
     __slots__ = ()
 
     # -- arithmetic
+    @staticmethod
+    def _nan(o):
+        return isinstance(o, float) and o != o
+
     def _arith_ok(self, o):
         if isinstance(o, SVal):
             raise EncodingError("arithmetic on a feature value (F1): the numeric model would be unsound")
@@ -409,6 +413,8 @@ class SNum(Sym):
     def __add__(self, o):
         if not _is_num(o):
             return NotImplemented
+        if self._nan(o):
+            return float("nan")
         self._arith_ok(o)
         a, b = _num2(self, o)
         return _wrap_num(a + b)
@@ -416,12 +422,16 @@ class SNum(Sym):
     def __radd__(self, o):
         if not _is_num(o):
             return NotImplemented
+        if self._nan(o):
+            return float("nan")
         a, b = _num2(o, self)
         return _wrap_num(a + b)
 
     def __sub__(self, o):
         if not _is_num(o):
             return NotImplemented
+        if self._nan(o):
+            return float("nan")
         self._arith_ok(o)
         a, b = _num2(self, o)
         return _wrap_num(a - b)
@@ -429,12 +439,16 @@ class SNum(Sym):
     def __rsub__(self, o):
         if not _is_num(o):
             return NotImplemented
+        if self._nan(o):
+            return float("nan")
         a, b = _num2(o, self)
         return _wrap_num(a - b)
 
     def __mul__(self, o):
         if not _is_num(o):
             return NotImplemented
+        if self._nan(o):
+            return float("nan")
         self._arith_ok(o)
         a, b = _num2(self, o)
         return _wrap_num(a * b)
@@ -442,12 +456,16 @@ class SNum(Sym):
     def __rmul__(self, o):
         if not _is_num(o):
             return NotImplemented
+        if self._nan(o):
+            return float("nan")
         a, b = _num2(o, self)
         return _wrap_num(a * b)
 
     def __truediv__(self, o):
         if not _is_num(o):
             return NotImplemented
+        if self._nan(o):
+            return float("nan")
         self._arith_ok(o)
         a, b = _num2(self, o)
         if z3.is_int(a):
@@ -461,6 +479,8 @@ class SNum(Sym):
     def __rtruediv__(self, o):
         if not _is_num(o):
             return NotImplemented
+        if self._nan(o):
+            return float("nan")
         a, b = _num2(o, self)
         if z3.is_int(a):
             a = z3.ToReal(a)
